@@ -17,7 +17,7 @@ import (
 
 func init() {
 	register(&Prop{ID: "C13", Run: runC13, MinNontrivial: 500,
-		Rule:        "cases = (key configuration: each of the 15 non-empty subsets of {enc field, enc setter, sign field, sign setter}, setter keys RSA or ECDSA and wrapped in recording spies) x (signature algorithm: unset or each of the 4 compatible ones) x (canonicaliser: unset or each of 6) x (message kind: AuthnRequest document/string, LogoutRequest, LogoutResponse, Sign* on the unsigned document) x configuration/argument strings drawn from the value classes; oracle = recipient: serialise, re-parse, Signature right after Issuer, declared algorithms == configured/default, digest recomputed with the configured canonicaliser object, embedded cert == expected == GetSigningCertBytes == metadata signing key, dsig validation trusting only the expected cert, SignatureValue verified with the expected public key, spy of the expected source signed and no other; expected source = sign setter > sign field > enc setter > enc field; non-trivial = a signed document was produced; distinct by parameter tuple; in a third of the cases the signed document is first passed through the other binding helpers; SigningContext().Prefix changed by the application in a fifth of the cases; SP clocks years outside the signing certificate's validity",
+		Rule:        "cases = (key configuration: each of the 15 non-empty subsets of {enc field, enc setter, sign field, sign setter}, setter keys RSA or ECDSA and wrapped in recording spies) x (signature algorithm: unset or each of the 4 compatible ones) x (canonicaliser: unset or each of 6) x (message kind: AuthnRequest document/string, LogoutRequest, LogoutResponse, Sign* on the unsigned document) x configuration/argument strings drawn from the value classes; oracle = recipient: serialise, re-parse, Signature right after Issuer, declared algorithms == configured/default, digest recomputed with the configured canonicaliser object, embedded cert == expected == GetSigningCertBytes == metadata signing key, dsig validation trusting only the expected cert, SignatureValue verified with the expected public key, spy of the expected source signed and no other; expected source = sign setter > sign field > enc setter > enc field; non-trivial = a signed document was produced; distinct by parameter tuple; in a third of the cases the signed document is first passed through the other binding helpers; SigningContext().Prefix changed by the application in a fifth of the cases; SP clocks years outside the signing certificate's validity; class shared-keystore; refused setter calls before use",
 		Assumptions: []string{"signature algorithms are restricted to those compatible with the key type (an incompatible setting silently falls back to the default)", "field key stores are RSA by type", "exclusive canonicalisers are configured without an InclusiveNamespaces prefix list (goxmldsig's signer never emits one)"}})
 }
 
